@@ -48,7 +48,7 @@ pub fn scenarios(thorough: bool) -> Vec<Scenario> {
 }
 
 /// Amounts near the maximum coin value: deposits of 2^110 into the built-in pools, then several swaps of 2^100 and 2^101 per side and block.
-fn huge_amounts(run: &Run, thorough: bool) {
+pub fn huge_amounts(run: &Run, thorough: bool) {
     let rootn = root_huge(NetID::Custom02);
     let mut cfg = cfg_requests();
     cfg.mints = false;
@@ -66,8 +66,97 @@ fn huge_amounts(run: &Run, thorough: bool) {
     println!("  scenario custom02-huge-amounts: depth {} states {} transitions {}", st.depth_completed, st.states, st.transitions);
 }
 
+/// A user-created pool whose whole liquidity sits in three wallet coins of uneven size, with uneven reserves (a swap went through):
+/// every block of up to three withdrawals is explored, among them the ones that together redeem 100% - each request gets its
+/// pro-rata share rounded down, whoever comes last.
+fn user_pool_emptied_by_several_withdrawals(run: &Run, thorough: bool) {
+    use crate::stf::*;
+    use crate::world::*;
+    use melstructs::{Denom, PoolKey, TxKind};
+    let (_w, rootn) = root(NetID::Custom02, 0, true);
+    let scratch = Run::new("scratch", "quick");
+    let mut cfg = cfg_requests();
+    cfg.burnt_requests = false;
+    cfg.odd_shapes = false;
+    cfg.seal_actions = vec![None];
+    let n = match advance_by_labels(&scratch, rootn, &cfg, &["open", "mint(", "seal(None)", "open", "deposit[MEL/C", "seal(None)", "open", "swap[MEL/C", "seal(None)", "open"]) {
+        Some(n) => n,
+        None => {
+            run.outcome("user-pool-prefix-unavailable");
+            return;
+        }
+    };
+    // the pool and the wallet's liquidity coin
+    let pool = match n.model.pools.keys().find(|k| k.left() == Denom::Mel && matches!(k.right(), Denom::Custom(_))) {
+        Some(k) => *k,
+        None => { run.outcome("user-pool-scenario:early-return-1"); return; }
+    };
+    let liq = pool.liq_token_denom();
+    let coin = match crate::alphabet::coins_of(&n.model, liq, 1).first() {
+        Some(c) => c.clone(),
+        None => { run.outcome("user-pool-scenario:early-return-2"); return; }
+    };
+    let carrier = match crate::alphabet::coins_of(&n.model, Denom::Mel, 12).into_iter().max_by_key(|c| c.1.coin_data.value.0) {
+        Some(c) => c,
+        None => { run.outcome("user-pool-scenario:early-return-3"); return; }
+    };
+    let v = coin.1.coin_data.value.0;
+    if v < 10 {
+        run.outcome("user-pool-scenario:liquidity-coin-too-small");
+        return;
+    }
+    let (a, b) = (v / 3 + 1, v / 5 + 2);
+    let mv = carrier.1.coin_data.value.0;
+    if mv < 10_000 {
+        run.outcome("user-pool-scenario:mel-carrier-too-small");
+        return;
+    }
+    // (the MEL carrier is cut up as well: every withdrawal request of a block needs a MEL coin of its own)
+    let split = tx_t(TxKind::Normal, vec![coin.0, carrier.0], vec![out_t(a, liq), out_t(b, liq), out_t(v - a - b, liq), out_t(mv - 3003, Denom::Mel), out_t(1000, Denom::Mel), out_t(1001, Denom::Mel), out_t(1002, Denom::Mel)], 0, vec![0x53]);
+    let eng = Engine::new(run);
+    let mut node = Some(n);
+    for act in [Action::Batch { label: "split of the liquidity coin into three".into(), txs: vec![split], expect_ok: true }, Action::Seal(None)] {
+        node = match node.as_ref().map(|x| eng.step(x, &act)) {
+            Some(StepOut::Next(x)) => Some(x),
+            _ => None,
+        };
+    }
+    let start = match node {
+        Some(x) => x,
+        None => { run.outcome("user-pool-scenario:early-return-4"); return; }
+    };
+    let pool_at_start = start.model.pools.get(&pool).map(|p| json!({"lefts": p.lefts.to_string(), "rights": p.rights.to_string(), "liqs": p.liqs.to_string()}));
+    let mut c2 = cfg.clone();
+    c2.swaps = false;
+    c2.deposits = false;
+    c2.mints = false;
+    c2.max_txs_per_block = 3;
+    c2.only_pools = Some(vec![pool]);
+    if let StepOut::Next(o) = Engine::new(&scratch).step(&start, &Action::Open) {
+        run.set("alphabet_after_the_split", json!(crate::alphabet::actions(&o, &c2).iter().map(|a| a.label()).collect::<Vec<_>>()));
+    }
+    let acts = move |n: &Node| crate::alphabet::actions(n, &c2);
+    let visit = |n: &Node| {
+        // non-vacuity: sealed states in which several withdrawals of one block have emptied the pool
+        if !n.is_open() {
+            let w = n.model.block_txs.values().filter(|t| t.kind == TxKind::LiqWithdraw).count();
+            if w >= 2 && n.model.pools.get(&pool).map(|p| p.liqs == 0).unwrap_or(false) {
+                run.outcome(&format!("user-pool-emptied-by-{}-withdrawals-in-one-block", w));
+            }
+        }
+    };
+    let st = bfs(&eng, vec![start], if thorough { 7 } else { 5 }, 300_000, &acts, &visit);
+    run.set("scenario:user-pool-emptied-by-several-withdrawals", json!({"depth_bound_completed": st.depth_completed, "unique_states": st.states, "transitions": st.transitions, "liquidity_coins": [a.to_string(), b.to_string(), (v - a - b).to_string()], "pool_before_the_withdrawals": pool_at_start}));
+    println!("  scenario user-pool-emptied-by-several-withdrawals: depth {} states {} transitions {}", st.depth_completed, st.states, st.transitions);
+    let _ = PoolKey::new(Denom::Mel, Denom::Sym);
+}
+
 pub fn run(run: &Run) {
+    user_pool_emptied_by_several_withdrawals(run, run.thorough());
     huge_amounts(run, run.thorough());
+    // C16's scenario of a custom pool wholly held by the wallet in several coins: blocks of up to three withdrawals, among them
+    // those that together redeem all of the pool's liquidity (settled pro rata, rounded down, like any other)
+    crate::props::c16::custom_pool_withdrawals(run, run.thorough());
     for sc in scenarios(run.thorough()) {
         sample_alphabet(run, &sc);
         let st = run_scenario(run, &sc, 2_000_000);
